@@ -9,22 +9,22 @@ import (
 
 // Y is an ordered YAML tree.
 type Y struct {
-	Kind  string  `json:"kind"` // "map","seq","str","int","float","bool"
+	Kind  string   `json:"kind"` // "map","seq","str","int","float","bool"
 	Keys  []string `json:"keys,omitempty"`
-	Vals  []*Y    `json:"vals,omitempty"` // map values, parallel to Keys
-	Items []*Y    `json:"items,omitempty"`
-	S     string  `json:"s,omitempty"`
-	I     int64   `json:"i,omitempty"`
-	F     float64 `json:"f,omitempty"`
-	B     bool    `json:"b,omitempty"`
+	Vals  []*Y     `json:"vals,omitempty"` // map values, parallel to Keys
+	Items []*Y     `json:"items,omitempty"`
+	S     string   `json:"s,omitempty"`
+	I     int64    `json:"i,omitempty"`
+	F     float64  `json:"f,omitempty"`
+	B     bool     `json:"b,omitempty"`
 }
 
-func YMap() *Y                { return &Y{Kind: "map"} }
-func YSeq(items ...*Y) *Y     { return &Y{Kind: "seq", Items: items} }
-func YStr(s string) *Y        { return &Y{Kind: "str", S: s} }
-func YInt(i int64) *Y         { return &Y{Kind: "int", I: i} }
-func YFloat(f float64) *Y     { return &Y{Kind: "float", F: f} }
-func YBool(b bool) *Y         { return &Y{Kind: "bool", B: b} }
+func YMap() *Y            { return &Y{Kind: "map"} }
+func YSeq(items ...*Y) *Y { return &Y{Kind: "seq", Items: items} }
+func YStr(s string) *Y    { return &Y{Kind: "str", S: s} }
+func YInt(i int64) *Y     { return &Y{Kind: "int", I: i} }
+func YFloat(f float64) *Y { return &Y{Kind: "float", F: f} }
+func YBool(b bool) *Y     { return &Y{Kind: "bool", B: b} }
 func (y *Y) Set(k string, v *Y) *Y {
 	for i, kk := range y.Keys {
 		if kk == k {
@@ -71,12 +71,12 @@ func (y *Y) Clone() *Y {
 
 // YOpts are surface-form choices of the YAML printer.
 type YOpts struct {
-	Indent   int  `json:"indent,omitempty"`    // spaces per level (default 2)
-	Flow     int  `json:"flow,omitempty"`      // 0 never; 1 flow style for scalar-only sequences; 2 also for small scalar-only maps
-	Quote    int  `json:"quote,omitempty"`     // 0 plain where safe else double; 1 always double; 2 single where possible
-	Comments bool `json:"comments,omitempty"`  // sprinkle comments and blank lines
+	Indent    int  `json:"indent,omitempty"`     // spaces per level (default 2)
+	Flow      int  `json:"flow,omitempty"`       // 0 never; 1 flow style for scalar-only sequences; 2 also for small scalar-only maps
+	Quote     int  `json:"quote,omitempty"`      // 0 plain where safe else double; 1 always double; 2 single where possible
+	Comments  bool `json:"comments,omitempty"`   // sprinkle comments and blank lines
 	SeqIndent bool `json:"seq_indent,omitempty"` // indent "- " under its key
-	Header   bool `json:"header,omitempty"`    // emit the "#%Validation Profile 1.0" first line
+	Header    bool `json:"header,omitempty"`     // emit the "#%Validation Profile 1.0" first line
 }
 
 // Print renders the tree.
